@@ -145,12 +145,13 @@ SILENT_EDITS = [   # behaviour-preserving, no new violation
 # (`f() < g() < h()` with cdef noexcept functions logged g, f, h) - repaired in /repo (cdf5a6519), the rule is registered.
 def run(ctx):
     from ..rules import flatpar
-    from ..rules import sC20, pC01
+    from ..rules import sC20, pC01, dD5
     return [pC20.rule_order(ctx), pC20.rule_once(ctx), pC20.rule_let_order(ctx), pC20.rule_drop(ctx), flatpar.rule_flat(ctx),
             sC20.rule_paste(ctx), sC20.rule_stack(ctx), sC20.rule_hoist(ctx),
             sC20.rule_rewrite(ctx, 'main', floor=200), sC20.rule_inplace(ctx, 'main', floor=10), sC20.rule_short(ctx), sC20.rule_listdir(ctx), sC20.rule_kwmap(ctx, 'main', floor=150),
             sC20.rule_rewrite(ctx, 'cross-order', floor=200), sC20.rule_kwmap(ctx, 'routing', floor=150),
-            pC01.rule_inplace(ctx, pending=True, floor=0, tolerant=True)]       # C01-INPLACE-NAME (known finding K14), shared with C01
+            pC01.rule_inplace(ctx, pending=True, floor=0, tolerant=True),
+            dD5.rule_repaste(ctx), dD5.rule_errconv(ctx), dD5.rule_reuse(ctx)]      # round 6 (rules/dD5.py), armed after the repairs 08e5ac73c, ca5f2514f, 64585f1af       # C01-INPLACE-NAME (known finding K14), shared with C01
     # armed after the repair b8df1e725 (FINDING_2 of session s4-G5): sC20.rule_rewrite(ctx, 'cross-order', floor=200) -> C20-REWRITE-XORDER reports
     #   ParseTreeTransforms.PostParse._visit_assignment_node:cross-order on the unmodified tree: `a1, b1 = a2, *s2 = f(), g()` calls g before f.
     # NOT registered (FINDING_3 of session s4-G5, partially repaired by 43f76656b: Python-level lookups are evaluated once now; the rule's model does not know
